@@ -7,6 +7,7 @@ LEAN_MODULES = ["Ccp.Props.C01"]
 RULE = ("configs: random line lists (length 0..18) mixing commands, comments with '!'/'#', empty and whitespace-only "
         "lines (blank, tab, U+00A0, U+2003), banner blocks (all six keywords, 'set' prefixes, delimiters ^ # ^C $ ~ @ ! €, "
         "one-line, unterminated, glued/doubled-blank starts, nested starts, indented/blank body lines), "
+        "about a third of the configs with trailing white space on some lines (blank, tab, a stray CR of a CRLF source, NBSP, FF), "
         "'macro name' blocks terminated or not, regex metacharacters, braces, Latin-1 letters; plus the vendor fixture configs "
         "of tests/fixtures/configs; x syntax in ios/nxos/iosxr/asa x factory x ignore_blank_lines x comment delimiters "
         "(default, ['#'], ['!','#'], []). factory+ignore_blank_lines is refused by the constructor by design and is not generated. "
@@ -51,9 +52,11 @@ def cases(rng, tier):
     for _ in range(n):
         syntax = rng.choice(T.SYNTAXES)
         delims = rng.choice(T.DELIM_SETS)
-        factory = rng.random() < 0.2
+        factory = rng.random() < 0.3
         ign = (not factory) and rng.random() < 0.4
-        yield mk(syntax, factory, ign, delims, T.rand_config(rng, 12, True, delims))
+        # a third of the configs carry trailing white space / a stray CR on some lines (list input is not split at line ends)
+        trail = 0.25 if rng.random() < 0.35 else 0.0
+        yield mk(syntax, factory, ign, delims, T.rand_config(rng, 12, True, delims, trail))
 
 
 def neighbours(case, rng):
